@@ -711,7 +711,15 @@ class strategy_smoother_fixedinterval(Smoother):
     def interpolate_fwd_at_t1(self, posterior_t1):
         marginals = posterior_t1.marginal
 
+        # The state to continue (or finalize) from sits exactly at t1:
+        # its backward model to "the solution at t1" is the identity.
+        cond_identity = posterior_t1.marginal.identity_conditional()
+        resume_from = MarkovSequence(
+            posterior_t1.marginal,
+            conditional=cond_identity,
+            reverse=posterior_t1.reverse,
+        )
         interp_res = utilities.InterpResult(
-            step_from=posterior_t1, interp_from=posterior_t1
+            step_from=resume_from, interp_from=posterior_t1
         )
         return (marginals, posterior_t1), interp_res
